@@ -50,6 +50,23 @@ func runOne(solver, file string, timeoutS int) SolverAnswer {
 	return SolverAnswer{Status: st, Solver: solver, TimeS: el, Output: text}
 }
 
+// raceTwo runs cvc5 and z3-new concurrently and returns the first definite answer.
+func raceTwo(file string, timeoutS int) SolverAnswer {
+	ch := make(chan SolverAnswer, 2)
+	for _, s := range []string{"cvc5", "z3-new"} {
+		go func(s string) { ch <- runOne(s, file, timeoutS) }(s)
+	}
+	a := <-ch
+	if a.Status == "sat" || a.Status == "unsat" {
+		return a
+	}
+	b := <-ch
+	if b.Status == "sat" || b.Status == "unsat" {
+		return b
+	}
+	return a
+}
+
 // solve runs the portfolio: z3-new first; if undecided, z3 and cvc5 in parallel.
 func solve(dir, name, query string, timeoutS int, all bool) (SolverAnswer, []SolverAnswer) {
 	file := filepath.Join(dir, name+".smt2")
